@@ -107,6 +107,7 @@ from .iter_elim import (
     Plan,
     Slot,
     SubstNames,
+    substitution_is_captured,
     clone,
     comp_binding_is_pairs,
     destructure_subst,
@@ -261,6 +262,10 @@ class _EnumerateElimInstance(DefaultTransformVisitor):
         # rewritten too, then substitute.
         new_elt = self._visit_expr(e.elt, ctx)
         if subst:
+            if substitution_is_captured(subst, new_elt):
+                # a nested comprehension re-binds a name the inlined reads use
+                # (the index, or a source): leave this one for the backend
+                return super()._visit_list_comp(e, ctx)
             new_elt = SubstNames(subst)._visit_expr(new_elt, ctx)
         return ListComp(new_targets, new_iterables, new_elt, e.loc)
 
